@@ -184,7 +184,8 @@ class Evaluator:
     (args values -> value) for helper functions the caller wants interpreted; `inline` maps callee paths to
     HIR bodies that may be inlined (depth-limited)."""
 
-    def __init__(self, calls=None, inline=None, max_inline=2):
+    def __init__(self, calls=None, inline=None, max_inline=2, scrut_override=None):
+        self.scrut_override = scrut_override or {}   # id(match node) -> value of its scrutinee
         self.calls = calls or {}
         self.inline = inline or {}
         self.max_inline = max_inline
@@ -310,6 +311,7 @@ class Evaluator:
             if l[0] == "i" and r[0] == "i":
                 try:
                     res = {"+": l[1] + r[1], "-": l[1] - r[1], "*": l[1] * r[1], "&": l[1] & r[1], "|": l[1] | r[1],
+                           ">>": l[1] >> r[1] if r[1] >= 0 else 0, "<<": l[1] << r[1] if 0 <= r[1] < 128 else 0,
                            "<": l[1] < r[1], "<=": l[1] <= r[1], ">": l[1] > r[1], ">=": l[1] >= r[1]}[op]
                     return ("b", res) if isinstance(res, bool) else ("i", res)
                 except KeyError:
@@ -337,7 +339,7 @@ class Evaluator:
         if k in ("break", "continue"):
             raise Break()
         if k in ("for", "loop"):
-            self.effect("loop", H.render(n)[:80])
+            self.effects.append(("loopnode", n))
             return sym("<loop>")
         return sym(H.render(n))
 
@@ -367,7 +369,11 @@ class Evaluator:
         self.ev(s, env)
 
     def match(self, n, env):
-        sv = self.ev(n["scrut"], env)
+        if id(n) in self.scrut_override:
+            self.ev(n["scrut"], env)      # keep its effects (e.g. the read of the sub-opcode)
+            sv = self.scrut_override[id(n)]
+        else:
+            sv = self.ev(n["scrut"], env)
         for a in n["arms"]:
             e2 = dict(env)
             r = match_pat(a["pat"], sv, e2)
@@ -445,7 +451,7 @@ class Evaluator:
             return ("b", args[0][1] == "None")
         if name == "unwrap_or" and args and args[0][0] == "v":
             return args[0][2][0] if args[0][1] == "Some" else args[1]
-        self.effect("call", H.render(n))
+        self.effects.append(("callnode", n))
         return sym("%s(%s)" % (name, ", ".join(show(a) for a in args)))
 
     def run_fn(self, body, arg_values):
